@@ -262,7 +262,7 @@ def run_external(solver, timeout_ms):
     os.makedirs(WORK, exist_ok=True)
     text = solver.to_smt2()
     fd, path = tempfile.mkstemp(suffix=".smt2", dir=WORK)
-    secs = max(20, int(timeout_ms / 1000 * 4))
+    secs = max(120, int(timeout_ms / 1000 * 4))  # wall-clock budget of the fallback solvers: generous, so that a loaded machine does not turn a proved obligation into an undecided one
     try:
         with os.fdopen(fd, "w") as fh:
             fh.write("(set-logic ALL)\n" + text)
